@@ -1,24 +1,32 @@
 #!/usr/bin/env python3
 """Prints the markdown table of DESIGN.md §8 from seeded/*/meta.json (maintenance helper, not used by checks)."""
 import json, glob, os
-rows = []
-final = json.load(open('/verif/seeded/FINAL_RERUN.json'))['results']
-for d in sorted(glob.glob('/verif/seeded/*/')):
-    ID = os.path.basename(d.rstrip('/'))
-    m = json.load(open(d + 'meta.json'))
-    caught = []
-    for r in m['checks_run_against_it'] + [x for a in m.get('attempts', []) for x in a['checks_run_against_it']]:
-        if r['exit'] == 1 and r['check'] not in caught:
-            caught.append(r['check'])
-    own = m['breaks_property']
-    if final.get(ID, {}).get('exit') == 1 and own not in caught:
-        caught.insert(0, own)
-    caught.sort(key=lambda c: (c != own, c))
-    rnd = 1 if len(ID) == 3 else {'b': 2, 'c': 3, 'd': 3}[ID[3]]
-    rows.append((ID, rnd, own, ','.join(m.get('files_changed', [])), ','.join(caught), 'yes' if m.get('history') else ''))
-print('| seeded id | round | property | file(s) changed | caught by (quick tier, exit 1) | needed strengthening |')
-print('|---|---|---|---|---|---|')
-for r in rows:
-    print('| ' + ' | '.join(str(x) for x in r) + ' |')
-print()
-print(len(rows), 'seeds;', sum(1 for r in rows if r[5]), 'needed strengthening')
+def rows():
+    out = []
+    final = json.load(open('/verif/seeded/FINAL_RERUN.json'))['results']
+    for d in sorted(glob.glob('/verif/seeded/*/')):
+        ID = os.path.basename(d.rstrip('/'))
+        if not os.path.exists(d + 'meta.json'):
+            continue
+        m = json.load(open(d + 'meta.json'))
+        caught = []
+        for r in m['checks_run_against_it'] + [x for a in m.get('attempts', []) for x in a['checks_run_against_it']]:
+            if r['exit'] == 1 and r['check'] not in caught:
+                caught.append(r['check'])
+        own = m['breaks_property']
+        if final.get(ID, {}).get('exit') == 1 and own not in caught:
+            caught.insert(0, own)
+        if m.get('obsolete'):
+            caught = ['— (obsolete, see below)']
+        caught.sort(key=lambda c: (c != own, c))
+        rnd = 1 if len(ID) == 3 else {'b': 2, 'c': 3, 'd': 3, 'e': 4, 'f': 4}[ID[3]]
+        out.append((ID, rnd, own, ','.join(m.get('files_changed', [])), ','.join(caught), 'yes' if m.get('history') else ''))
+    return out
+if __name__ == '__main__':
+    print('| seeded id | round | property | file(s) changed | caught by (quick tier, exit 1) | needed strengthening |')
+    print('|---|---|---|---|---|---|')
+    R = rows()
+    for r in R:
+        print('| ' + ' | '.join(str(x) for x in r) + ' |')
+    print()
+    print(len(R), 'seeds;', sum(1 for r in R if r[5]), 'needed strengthening')
